@@ -60,6 +60,7 @@ const (
 	opObjNew
 	opObjSet
 	opObjUnset
+	opObserve
 )
 
 // lop is one list-program operation descriptor.
@@ -130,11 +131,13 @@ func (cfg c05Cfg) label(d lop) string {
 		return "o0.Set(k," + cfg.refName(d.V) + ")"
 	case opObjUnset:
 		return "o0.Unset(k)"
+	case opObserve:
+		return r + "<call every observer>"
 	}
 	return "?"
 }
 
-var opKindNames = []string{"NewList", "NewList", "NewListOf", "NewListFrom", "Add", "Add", "Add", "Insert", "Replace", "Delete", "Delete", "Delete", "Pop", "Clear", "Reverse", "Sort", "SubList", "Concat", "GetList", "NewObject", "Set", "Unset"}
+var opKindNames = []string{"NewList", "NewList", "NewListOf", "NewListFrom", "Add", "Add", "Add", "Insert", "Replace", "Delete", "Delete", "Delete", "Pop", "Clear", "Reverse", "Sort", "SubList", "Concat", "GetList", "NewObject", "Set", "Unset", "observe"}
 
 // c05Ops lists the enabled operation descriptors of a world.
 func c05Ops(cfg c05Cfg) func(w W) []lop {
@@ -188,6 +191,9 @@ func c05Ops(cfg c05Cfg) func(w W) []lop {
 			n := len(m.E)
 			vals := valuesFor(m)
 			room := cfg.maxLen - n
+			if w.Hist(m)&model.HObservedSinceMut == 0 {
+				ops = append(ops, lop{K: opObserve, R: r})
+			}
 			ops = append(ops, lop{K: opAdd0, R: r})
 			if room >= 1 {
 				for _, v := range vals {
@@ -307,6 +313,13 @@ func c05Apply(cfg c05Cfg) func(w W, d lop) (string, string) {
 					return fmt.Sprintf("%s did not return the receiver", name()), "return/" + kind
 				}
 				mod(m)
+				w.Mutated(m)
+				switch d.K {
+				case opSort:
+					w.Mark(m, model.HSortedEver)
+				case opReverse:
+					w.Mark(m, model.HReversedEver)
+				}
 			}
 			return "", ""
 		}
@@ -339,6 +352,9 @@ func c05Apply(cfg c05Cfg) func(w W, d lop) (string, string) {
 			return "", ""
 		}
 		n := 0
+		if d.K == opObserve {
+			return w.Observe(w.Regs[d.R])
+		}
 		if d.K >= opAdd0 && d.K <= opAliasGet {
 			n = len(w.Regs[d.R].(*model.L).E)
 		}
@@ -528,7 +544,7 @@ func c05System(cfg c05Cfg) *bfs.System[W, lop] {
 		Check:    func(w W) (string, string) { return w.Check() },
 		Key:      func(w W) string { return w.Key() },
 		MaxDepth: cfg.depth,
-		Describe: func(w W) string { return w.Describe() }, Touch: func(w W) { w.Touch() },
+		Describe: func(w W) string { return w.Describe() },
 	}
 }
 
@@ -557,4 +573,40 @@ func runC05(c *ev.Ctx) {
 		res := bfs.Run(c, c05System(cfg))
 		c.Set("scenario/"+cfg.name, map[string]interface{}{"states": res.States, "depth_completed": res.DepthCompleted, "depth_bound": cfg.depth, "state_space_closed": res.Exhausted})
 	}
+}
+
+
+// focusedListHistories runs the list-program search with only one observer section judged; used by the
+// property-specific checks (C16 FormatString, C17 Sort, C18 aggregates) so that results which depend on the
+// HISTORY of a container (memoised values, flags) are decided by the check of the property they belong to.
+func focusedListHistories(c *ev.Ctx, name, focus string, vals []interface{}, depth int, judge func(w W) bool) bfs.Result {
+	sys := c05System(c05Cfg{name: name, vals: vals, nregs: 2, scratchN: 1, maxLen: 4, depth: depth})
+	in := sys.Inits[0]
+	sys.Inits = []func() W{func() W { w := in(); w.Focus = focus; return w }}
+	if judge != nil {
+		chk := sys.Check
+		sys.Check = func(w W) (string, string) {
+			if !judge(w) {
+				return "", ""
+			}
+			return chk(w)
+		}
+	}
+	return bfs.Run(c, sys)
+}
+
+func focusedObjectHistories(c *ev.Ctx, name, focus string, depth int) bfs.Result {
+	sys := c06System(c06Cfg{name: name, keys: []string{"a", "b", "c"}, vals: []interface{}{1, "x"}, nobj: 2, maxLen: 3, depth: depth})
+	in := sys.Inits[0]
+	sys.Inits = []func() W{func() W { w := in(); w.Focus = focus; return w }}
+	return bfs.Run(c, sys)
+}
+
+func anySorted(w W) bool {
+	for _, c := range w.Containers() {
+		if w.Hist(c)&model.HSortedEver != 0 {
+			return true
+		}
+	}
+	return false
 }
